@@ -58,7 +58,7 @@ func c01Before(p *Pool, o Op) c01Pre {
 // reason: no line), nBefore the number of pool entities before the call
 func c01Lines(p *Pool, o Op, pre c01Pre, class string, nBefore int) []string {
 	c := p.c01
-	if c == nil || c.off || class == "" {
+	if c == nil || c.off || class == "" || (class != "ok" && class != "layout" && o.Name != "MsgUpdateSize") {
 		return nil
 	}
 	a := func(i int) int {
@@ -189,6 +189,48 @@ func c01Lines(p *Pool, o Op, pre c01Pre, class string, nBefore int) []string {
 	case "MuxClearAll":
 		if u, ok := sig(a(0)); ok {
 			return one("muxclearall %d", u)
+		}
+	case "MsgShiftLeft", "MsgShiftRight", "MuxShiftLeft", "MuxShiftRight":
+		// the entity-id argument may denote anything: an id the layout does not hold matches nothing
+		x, okx := sig(a(1))
+		if !okx {
+			x = 4000
+		}
+		word := map[string]string{"MsgShiftLeft": "shl", "MsgShiftRight": "shr", "MuxShiftLeft": "muxshl", "MuxShiftRight": "muxshr"}[o.Name]
+		var recv int
+		var ok bool
+		if strings.HasPrefix(o.Name, "Msg") {
+			recv, ok = c.msg[a(0)]
+		} else {
+			recv, ok = sig(a(0))
+		}
+		if ok {
+			return []string{fmt.Sprintf("%s %d %d %d => shift:%d", word, recv, x, o.A[2], p.shiftResult)}
+		}
+	case "MsgUpdateSize":
+		// the C01 model takes the limit of the bus as an input: 8 for CAN 2.0A, nothing for another type
+		if m, ok := c.msg[a(0)]; ok && (class == "ok" || class == "toosmall" || class == "toobig") {
+			word := fmt.Sprintf("resize %d %d", m, o.A[1])
+			if msg := p.msg(o.A[0]); msg != nil && msg.SenderNodeInterface() != nil && msg.SenderNodeInterface().ParentBus() != nil {
+				lim := 8
+				if msg.SenderNodeInterface().ParentBus().Type() != acme.BusTypeCAN2A {
+					lim = -1
+				}
+				word = fmt.Sprintf("resizebus %d %d %d", m, o.A[1], lim)
+			}
+			cls := class
+			if cls != "ok" {
+				cls = "layout" // any refusal of the C01 model
+			}
+			return []string{word + " => " + cls}
+		}
+	case "MsgCompact":
+		if m, ok := c.msg[a(0)]; ok {
+			return one("compact %d", m)
+		}
+	case "EnumSetMinSize":
+		if e, ok := c.enum[a(0)]; ok {
+			return one("setminsize %d %d", e, o.A[1])
 		}
 	}
 	return nil
